@@ -10,7 +10,7 @@ PROPS = {
     "C01": dict(
         level="exploration",
         technique="model-based stateful property testing (rapid): generated concurrent ADD/DEL/sync/balancer/drift/fault histories against the real eni.Manager+Local over a cloud simulator, checked by an interval ledger of address holders",
-        rule="history = 1..8 (thorough 20) rounds of 1..6 concurrently started operations drawn by rapid over a drawn pool configuration (IPv4 / dual stack, IPv6-only in 1/8 of the cases; optional slow metadata lookup and slow unassign calls); operations: ADD, cancelled ADD, DEL, balancer pass, periodic sync, remote removal, cloud fault plan, and 'late worker' (ADD #1 cancelled, the retry ADD #2 runs while the pool worker of ADD #1 is parked handing its answer over, then the worker notices the cancellation); non-trivial = at least one successful allocation AND (a round with more concurrent allocs than idle addresses, or a drift/fault action, or a stale duplicate release); distinct = distinct scenario hash",
+        rule="history = 1..8 (thorough 20) rounds of 1..6 concurrently started operations drawn by rapid over a drawn pool configuration (IPv4 / dual stack, IPv6-only in 1/8 of the cases; optional slow metadata lookup and slow unassign calls); operations: ADD, cancelled ADD, DEL, balancer pass, periodic sync, remote removal, cloud fault plan, 'slow DEL' (the DEL's walk over the manager's interfaces is held once between two interfaces - a harness-owned schedule point in a pass-through wrapper - while a balancer pass or another pod's ADD is started), and 'late worker' (ADD #1 cancelled, the retry ADD #2 runs while the pool worker of ADD #1 is parked handing its answer over, then the worker notices the cancellation); non-trivial = at least one successful allocation AND (a round with more concurrent allocs than idle addresses, or a drift/fault action, or a stale duplicate release); distinct = distinct scenario hash",
         assumptions=_pool_assume,
         level_text="randomised exploration of concurrent histories with true goroutine concurrency; the ledger invariant (no overlapping holds, provenance, no barred address, repeated ADD returns the same address) is sound under any interleaving; not exhaustive",
         level_note="an overlap that begins and ends strictly inside terway between two harness observations cannot be seen; schedule-dependent failures may not shrink deterministically (history is in the replay trace)",
